@@ -13,7 +13,7 @@ import (
 func init() {
 	register(Property{
 		ID:          "C11",
-		Explanation: "Decided statically on the structural type printer (anchor: the switch over Kind() in (*Dumper).TypeLit) and the ID dispatch: R1 every constructor of the stated grammar (pointer, chan, struct, array, slice, map, interface) has an arm; basic kinds reach the default arm, which prints the type's own String(); the struct arm emits, per field in index order, the name unless embedded, the recursive literal and the tag when non-empty; every arm recurses through the printer for its element/key types; R2 lossy-arm rule - the interface arm, which has more than one inhabitant in the domain (any, error), must depend on the type beyond its kind (a constant result collapses error into any); R3 named types are rendered by the namer first (PkgPath() != \"\" => Name(Ref(PkgPath, Name))), so imports are registered and local types unqualified (C03); R4 snippet.ID dispatches string / TypeName / reflect.Type / types.Type / *types.Alias, the *types.Alias arm precedes the types.Type arm that would shadow it, anything else panics, and type arguments go to the type-literal printer; R5 generic receiver names get their type-parameter list in the namer. R6 every name the namer hands out went through the argument rewriter (no return of the raw Name()/String() except the empty-name fallback); R7 the printers keep no mutable state on the Dumper (they are recursive; also through &d.field). R8 nothing reachable from snippet.ID, TypeLit or the namer writes package-level state (a memoised parse would hand the namer, which rewrites the parsed reference in place, an already rewritten tree). R4 is decided on a first-match type dispatch (type switch or chain of terminating comma-ok ifs); R9 import names are valid identifiers (C03.R5); R10 the rewrite of nested package paths changes a path only to '' or the tracker's name (C15.R4). R1 also: every return of a structural arm goes through the printer for its element types. R4 also: the reflect.Type and types.Type arms of ID yield the type-literal printer's text on every path, and no arm for another kind of go/types type precedes the types.Type arm except the alias arm. R11 = C15.R1 (type-argument lists are split at top-level commas by byte offset). NOT decided: types.Identical(rendered, original) for all type expressions (needs re-type-checking of the generated text). Round 8: R12 every format handed to fmt.Sprintf/Fprintf/Errorf in the printers, the snippets, the namer and pkg/gengo is a compile-time constant, or the format parameter of a forwarding helper all of whose calls pass a constant (rendered text is never a format).",
+		Explanation: "Decided statically on the structural type printer (anchor: the switch over Kind() in (*Dumper).TypeLit) and the ID dispatch: R1 every constructor of the stated grammar (pointer, chan, struct, array, slice, map, interface) has an arm; basic kinds reach the default arm, which prints the type's own String(); the struct arm emits, per field in index order, the name unless embedded, the recursive literal and the tag when non-empty; every arm recurses through the printer for its element/key types; R2 lossy-arm rule - the interface arm, which has more than one inhabitant in the domain (any, error), must depend on the type beyond its kind (a constant result collapses error into any); R3 named types are rendered by the namer first (PkgPath() != \"\" => Name(Ref(PkgPath, Name))), so imports are registered and local types unqualified (C03); R4 snippet.ID dispatches string / TypeName / reflect.Type / types.Type / *types.Alias, the *types.Alias arm precedes the types.Type arm that would shadow it, anything else panics, and type arguments go to the type-literal printer; R5 generic receiver names get their type-parameter list in the namer. R6 every name the namer hands out went through the argument rewriter (no return of the raw Name()/String() except the empty-name fallback); R7 the printers keep no mutable state on the Dumper (they are recursive; also through &d.field). R8 nothing reachable from snippet.ID, TypeLit or the namer writes package-level state (a memoised parse would hand the namer, which rewrites the parsed reference in place, an already rewritten tree). R4 is decided on a first-match type dispatch (type switch or chain of terminating comma-ok ifs); R9 import names are valid identifiers (C03.R5); R10 the rewrite of nested package paths changes a path only to '' or the tracker's name (C15.R4). R1 also: every return of a structural arm goes through the printer for its element types. R4 also: the reflect.Type and types.Type arms of ID yield the type-literal printer's text on every path, and no arm for another kind of go/types type precedes the types.Type arm except the alias arm. R11 = C15.R1 (type-argument lists are split at top-level commas by byte offset). NOT decided: types.Identical(rendered, original) for all type expressions (needs re-type-checking of the generated text). Round 8: R12 every format handed to fmt.Sprintf/Fprintf/Errorf in the printers, the snippets, the namer and pkg/gengo is a compile-time constant, or the format parameter of a forwarding helper all of whose calls pass a constant (rendered text is never a format). Round 9: R13 = C15.R2/R3; R14 the interface arm answers a type name (an embedded field must be one).",
 		Assumptions: append([]string{"github.com/octohelm/x/types presents reflect and go/types types through one Kind()/Elem()/Field() view (third-party, trusted)"}, commonAssumptions...),
 		Run:         runC11,
 	})
